@@ -87,7 +87,7 @@ fn step_f64(m: &Matrix<f64>, op: &Value) -> Option<StepOut<f64>> {
             if mx > 0.0 { for i in 0..m.rows() { for j in 0..m.cols() { s += (m[(i, j)].abs() / mx).powf(p); } } }
             let want = if mx > 0.0 { mx * s.powf(1.0 / p) } else { 0.0 };
             let n = (m.rows() * m.cols()).max(1) as f64;
-            o.units = Some(units((got - want).abs(), 4.0 * n * f64::EPSILON * want.abs().max(f64::MIN_POSITIVE)));
+            o.units = Some(units((got - want).abs(), 16.0 * (n + 1.0) * f64::EPSILON * want.abs().max(f64::MIN_POSITIVE)));
         }
         _ => return None,
     }
